@@ -31,6 +31,16 @@ func sweepC07(tier string) []Stratum {
 						out = append(out, Stratum{Prefix: []int32{int32(kind), int32(fi)}, Named: map[string]int32{"sizeclass": 3, "exc": exc, "cutmode": 1, "cutparam": p, "gap": g}})
 					}
 				}
+				if tier == "thorough" {
+					// last k bytes separate (k = 1..4) and every pair of cuts via two forced single cuts is covered by the
+					// random part; here additionally: cut positions 1..60 of arbitrary-size replies (random arguments)
+					for p := int32(0); p < 60; p++ {
+						out = append(out, Stratum{Prefix: []int32{int32(kind), int32(fi)}, Named: map[string]int32{"exc": exc, "cutmode": 1, "cutparam": p, "gap": p % 3}})
+					}
+					for k := int32(0); k < 4; k++ {
+						out = append(out, Stratum{Prefix: []int32{int32(kind), int32(fi)}, Named: map[string]int32{"exc": exc, "cutmode": 2, "cutparam": k, "gap": k % 3}})
+					}
+				}
 				out = append(out, Stratum{Prefix: []int32{int32(kind), int32(fi)}, Named: map[string]int32{"sizeclass": 3, "exc": exc, "cutmode": 3, "gap": 0}})
 				out = append(out, Stratum{Prefix: []int32{int32(kind), int32(fi)}, Named: map[string]int32{"sizeclass": 3, "exc": exc, "cutmode": 3, "gap": 1}})
 			}
